@@ -496,6 +496,10 @@ increment_simple_rowgroup_ctr(j_decompress_ptr cinfo, JDIMENSION rows)
    */
   rows_left = rows % cinfo->max_v_samp_factor;
   cinfo->output_scanline += rows - rows_left;
+  /* The upsampler has not seen the skipped rows. */
+  if (!master->using_merged_upsample)
+    ((my_upsample_ptr)cinfo->upsample)->rows_to_go =
+      cinfo->output_height - cinfo->output_scanline;
 
   read_and_discard_scanlines(cinfo, rows_left);
 }
@@ -664,6 +668,9 @@ _jpeg_skip_scanlines(j_decompress_ptr cinfo, JDIMENSION num_lines)
     }
     if (!master->using_merged_upsample)
       upsample->rows_to_go = cinfo->output_height - cinfo->output_scanline;
+    else
+      ((my_merged_upsample_ptr)cinfo->upsample)->rows_to_go =
+        cinfo->output_height - cinfo->output_scanline;
     return num_lines;
   }
 
@@ -708,6 +715,9 @@ _jpeg_skip_scanlines(j_decompress_ptr cinfo, JDIMENSION num_lines)
    */
   if (!master->using_merged_upsample)
     upsample->rows_to_go = cinfo->output_height - cinfo->output_scanline;
+  else
+    ((my_merged_upsample_ptr)cinfo->upsample)->rows_to_go =
+      cinfo->output_height - cinfo->output_scanline;
 
   /* Always skip the requested number of lines. */
   return num_lines;
